@@ -18,9 +18,10 @@ class C01(UtfCheck):
             'every function); seeded random sequences of mixed widths with random route/mode. '
             'expected = Spec standard encoding (utf8_enc/utf16_enc by range, / and mod). non-trivial = non-empty input; '
             'distinct = distinct case line')
-    partial = ('routes_covered (every overload of the API inventory is modelled) is not a Coq obligation: Gen/Api.v is not generated; '
-               'the overload list is the harness route table (utf_gen.routes_for). 16-bit wchar_t instantiations are not compiled on this '
-               'platform and not claimed (the model selects the branch from Gen/Consts.sizeof_wchar).')
+    partial = ('every conversion function and from_*/to_* member of the AST inventory is bound to its transcription (Utf/ApiCoverage.v); the '
+               'OVERLOADS of each (pointer / buffer / std string / view / constructor / set / assignment, with and without size and '
+               'mode) are the harness route table (utf_gen.routes_for), not a Coq obligation. 16-bit wchar_t instantiations are not '
+               'compiled on this platform and not claimed (the model selects the branch from Gen/Consts.sizeof_wchar).')
     modelled_not_verified = (
         'C++ semantics of the transcribed statements (LP64, 32-bit signed wchar_t, integer promotions) are modelled, not verified',
         'ST::buffer<T> construction/assignment/allocate are modelled as exact-size arrays with a terminator (their own behaviour is C05)',
@@ -98,6 +99,31 @@ class C01(UtfCheck):
             if i % 4 == 0:
                 yield case('wchar_to_latin_1', 'ptr', MODES[i % 3], '1', encode('32', b), b)
                 yield case('str_to_latin_1', 'to', '_', '1', encode('8', b), b)
+        # 2c. long inputs (255..4097 units): uniform runs and mixtures, every function, pointer route; ST::string routes
+        for i, sc in enumerate(long_scalars()):
+            if quick and len(sc) > 1100 and i % 3:
+                continue
+            for kind, fns in FN_BY_SRC.items():
+                if kind == 'l1':
+                    continue
+                u = encode(kind, sc)
+                for fn in fns:
+                    if ALL_FN[fn][1] == 'l1':
+                        continue
+                    yield case(fn, 'ptr', MODES[i % 3], '_', u, sc)
+            if i % 2 == 0:
+                u8 = encode('8', sc)
+                for fn in STR_TO_FNS[1:4]:
+                    yield case(fn, 'to', '_', '_', u8, sc)
+        for i, b in enumerate(long_latin1()):
+            for fn in FN_BY_SRC['l1']:
+                yield case(fn, 'ptr', '_', '_', b, b)
+                if i % 2 == 0:
+                    yield case(fn, 'buf', '_', '_', b, b)
+            for kind in ('8', '16', '32'):
+                fn = {'8': 'utf8_to_latin_1', '16': 'utf16_to_latin_1', '32': 'utf32_to_latin_1'}[kind]
+                yield case(fn, 'ptr', MODES[i % 3], str(i % 2), encode(kind, b), b)
+            yield case('str_to_latin_1', 'to', '_', '1', encode('8', b), b)
         # 3. default-mode overloads (this build: check_validity)
         for sc in ([0x41, 0xE9, 0x20AC, 0x1F600], [0x10FFFF], []):
             for kind, fns in FN_BY_SRC.items():
